@@ -32,11 +32,10 @@ int main()
         auto f = vh::fields(line);
         const std::string op = f["op"];
         const IndexType N = std::stoi(f["N"]);
-        DenseMatrix K = v8::parse_matrix(f["kern"]);
-        v8::matrix_kernel_callback kcb{&K};
-        Idx idx(N);
-        for (IndexType i = 0; i < N; ++i)
-            idx[i] = i;
+        DenseMatrix Kbig = v8::parse_matrix(f["kern"]);
+        v8::matrix_kernel_callback kcb{&Kbig};          // the library sees the full matrix through the callback ...
+        Idx idx = v8::parse_range(f, N);                 // ... and this range of sample indices
+        DenseMatrix K = v8::restrict_square(Kbig, idx);  // mirrored kernels work by position in the range
         std::ostringstream out;
         std::cerr << "case " << op << " N=" << N << " k=" << f["k"] << " d=" << f["d"] << " " << f["method"] << "\n";
         if (op == "lle")
